@@ -71,7 +71,7 @@ func getDocumentTitle(root *html.Node, wc stringutil.WordCounter) string {
 	// If they had an element with tag "title" in their HTML
 	// (an HTML one: the <title> of an inline SVG picture is its tooltip)
 	var titleNode *html.Node
-	for _, node := range dom.QuerySelectorAll(root, "title") {
+	for _, node := range domutil.WithoutTemplateContent(dom.QuerySelectorAll(root, "title")) {
 		if node.Namespace == "" {
 			titleNode = node
 			break
@@ -121,7 +121,8 @@ func getDocumentTitle(root *html.Node, wc stringutil.WordCounter) string {
 			}
 		}
 	} else if stringutil.CharCount(curTitle) > 150 || stringutil.CharCount(curTitle) < 15 {
-		if h1 := dom.QuerySelector(root, "h1"); h1 != nil {
+		if headings := domutil.WithoutTemplateContent(dom.QuerySelectorAll(root, "h1")); len(headings) > 0 {
+			h1 := headings[0]
 			curTitle = domutil.InnerText(h1)
 		}
 	}
